@@ -142,7 +142,7 @@ func withdrawOnNormalForms(c *Ctx, fs *formSet, verbose bool) {
 				}
 				seen["1:"+g] = true
 				nc++
-				order = append(order, formSpec{"targeted", 2, []string{g}}, formSpec{"targeted", 1, []string{g}})
+				order = append(order, formSpec{"callee", 1, []string{g}}, formSpec{"targeted", 2, []string{g}}, formSpec{"targeted", 1, []string{g}})
 			}
 		}
 		for _, nfo := range order {
